@@ -6,7 +6,6 @@ package main
 import (
 	"errors"
 	"fmt"
-	"os"
 	"time"
 
 	netty "github.com/go-netty/go-netty"
@@ -182,7 +181,7 @@ func build(tier string) []*explore.Scenario {
 			for _, lay := range lays {
 				for _, closer := range []string{"user", "handler"} {
 					s := scenario(hlib.ChanCfg{Q: q, Until: until}, lay, closer, bound)
-					s.Cache = os.Getenv("VERIF_NOCACHE") == ""
+					s.Cache = true
 					scs = append(scs, s)
 				}
 			}
